@@ -167,7 +167,7 @@ int tcpreadtimeout(int s, unsigned char *buf, int num, int timeout) {
         fds[0].events = POLLIN;
         ndesc = poll(fds, 1, timeout ? timeout * 1000 : -1);
         if (ndesc < 1)
-            return ndesc;
+            return (ndesc == 0 && len > 0) ? -1 : ndesc; /* timeout inside a message: connection unusable */
 
         if (fds[0].revents & (POLLERR | POLLHUP | POLLNVAL)) {
             return -1;
@@ -209,7 +209,7 @@ int radtcpget(int s, int timeout, uint8_t **buf) {
         debug(DBG_DBG, cnt ? "radtcpget: connection lost" : "radtcpget: timeout");
         free(*buf);
         *buf = NULL;
-        return cnt;
+        return -1; /* the header is already consumed, the stream cannot be resumed */
     }
     debug(DBG_DBG, "radtcpget: got %d bytes", len);
     return len;
